@@ -213,3 +213,166 @@ def _(self: SectionK, survey: S2, **kwargs: Dict[str, str]) -> XNode:
         invariant(implies(bool(self.instance), keys(result.attrs) == keys(A)
                           and forall(0, len(keys(A)), lambda q: result.attrs[keys(A)[q]] == SubstIn(survey, A[keys(A)[q]], self))))
         invariant(result.kids == InstKids(ch, i, tmpl) + FlatKids(child)[:g])
+
+
+# ---------------------------------------------------------------- body controls of sections (C04 order/nesting, C02 refs)
+
+LabelVal = Union[str, Dict[str, str]]
+BindVal = Union[str, Dict[str, str]]
+SurveyS = Obj("Survey", name=str)
+declare_class("GroupedSection", "pyxform.section.GroupedSection")
+declare_class("RepeatingSection", "pyxform.section.RepeatingSection")
+# the slots of a group / repeat that its body control reads (element slots first: accepted where an element is)
+GroupK = Obj("GroupedSection", name=str, type=str, bind=Opt[Dict[str, BindVal]], flat=Opt[bool], trigger=Opt[str],
+             default=Opt[str], label=Opt[LabelVal], hint=Opt[LabelVal], guidance_hint=Opt[LabelVal],
+             media=Opt[Dict[str, LabelVal]], children=List[Elem], control=Opt[Dict[str, str]])
+RepeatK = Obj("RepeatingSection", name=str, type=str, bind=Opt[Dict[str, BindVal]], flat=Opt[bool], trigger=Opt[str],
+              default=Opt[str], label=Opt[LabelVal], hint=Opt[LabelVal], guidance_hint=Opt[LabelVal],
+              media=Opt[Dict[str, LabelVal]], children=List[Elem], control=Opt[Dict[str, str]])
+ElemK = Obj("SurveyElement", name=str, type=str, bind=Opt[Dict[str, BindVal]], flat=Opt[bool], trigger=Opt[str],
+            default=Opt[str], label=Opt[LabelVal], hint=Opt[LabelVal], guidance_hint=Opt[LabelVal],
+            media=Opt[Dict[str, LabelVal]])
+Ctx = Opaque("Ctx")
+
+
+@spec
+def XPathOf(e: ElemK) -> str:
+    uninterpreted()
+
+
+@spec
+def Subst(survey: Ctx, text: BindVal, ctx: Ctx) -> str:
+    uninterpreted()
+
+
+@spec
+def LabelNode(e: ElemK, survey: SurveyS) -> XNode:
+    """The label element of a row (SurveyElement.xml_label, proved in contracts/survey_element.py: C06/C07)."""
+    uninterpreted()
+
+
+@spec
+def ChildControl(e: Elem) -> Opt[XNode]:
+    """Body control of one child row (family contract of xml_control); None for a row that is not user-visible."""
+    uninterpreted()
+
+
+@contract("Elem.xml_control")
+def _(self: Elem, survey: SurveyS) -> Opt[XNode]:
+    trusted("family contract of xml_control on an element reference (Question / GroupedSection / RepeatingSection / "
+            "ExternalInstance overrides; the group and repeat overrides are proved below on their record views)")
+    ensures(result == ChildControl(self))
+    may_raise(PyXFormError, when=True)
+
+
+@spec
+def ControlKids(ch: List[Elem], i: int) -> List[XNode]:
+    """C04: the body presents the user-visible child rows in sheet order — one control per child that has one."""
+    if i <= 0:
+        return []
+    if ChildControl(ch[i - 1]) is None:
+        return ControlKids(ch, i - 1)
+    return ControlKids(ch, i - 1) + [some(ChildControl(ch[i - 1]))]
+
+
+@contract("Section.xml_control")
+def _(self: Obj("Section", name=str, children=List[Elem]), survey: SurveyS) -> List[XNode]:
+    properties("C04")
+    no_native("needs survey-element objects: exercised through the e2e oracles and the runtime monitor")
+    may_raise(PyXFormError, when=True)
+    ch = self.children
+    ensures(result == ControlKids(ch, len(ch)))
+
+    @loop(0, index="i")
+    def _():
+        invariant(_yield == ControlKids(ch, i))
+
+
+@contract("GroupedSection.xml_control")
+def _(self: GroupK, survey: SurveyS) -> Opt[XNode]:
+    properties("C04", "C02")
+    no_native("needs survey-element objects: exercised through the e2e oracles and the runtime monitor")
+    locals(children=List[XNode], attributes=Dict[str, str])
+    may_raise(PyXFormError, when=True)
+    Cd = some(self.control)
+    ch = self.children
+    bodyless = bool(self.control) and bool(Cd.get("bodyless"))
+    nl = 1 if bool(self.label) else 0
+    # a group marked bodyless (the generated meta block) has no control
+    ensures((result is None) == bodyless)
+    ensures(implies(not bodyless, some(result).nodeType == 1 and some(result).tagName == "group"))
+    # C04: the group's label first (when it has one), then the controls of its child rows in sheet order, nothing else
+    ensures(implies(not bodyless and bool(self.label), some(result).kids[0] == LabelNode(self, survey)))
+    ensures(implies(not bodyless, some(result).kids[nl:] == ControlKids(ch, len(ch)) and len(some(result).kids) >= nl))
+    # C02: a group that has an instance node is bound to it by ref = its own path; a flat group has no ref
+    ensures(implies(not bodyless and not bool(self.flat), "ref" in some(result).attrs
+                    and some(result).attrs["ref"] == XPathOf(self)))
+    # C04: the row's body attributes after reference substitution (appearance is taken literally), and nothing else
+    ensures(implies(not bodyless and bool(self.control), forall_str(lambda a: implies(a in Cd,
+            a in some(result).attrs and implies(a != "ref" or bool(self.flat),
+                some(result).attrs[a] == (Cd[a] if a == "appearance" else Subst(ctx_of(survey), Cd[a], ctx_of(self))))))))
+    ensures(implies(not bodyless, forall_str(lambda a: implies(a in some(result).attrs,
+            (a == "ref" and not bool(self.flat)) or (bool(self.control) and a in Cd)))))
+
+    @loop(0, index="i")
+    def _():
+        invariant(len(children) == nl + i and children[nl:] == ControlKids(ch, len(ch))[:i])
+        invariant(implies(bool(self.label), children[0] == LabelNode(self, survey)))
+
+
+@spec
+def RepeatDynDefaults(e: RepeatK) -> List[XNode]:
+    """setvalue actions of the dynamic defaults of the rows inside this repeat that are not inside a nested repeat
+    (RepeatingSection._dynamic_defaults_helper: each is get_setvalue_node_for_dynamic_default(in_repeat=True), proved C10)."""
+    uninterpreted()
+
+
+@contract("RepeatingSection._dynamic_defaults_helper")
+def _(self: RepeatK, current: RepeatK, survey: SurveyS) -> List[XNode]:
+    trusted("recursive walk over the rows of the repeat, nested repeats excluded (C10 e2e oracle: one odk-new-repeat action per row)")
+    ensures(result == RepeatDynDefaults(current))
+    may_raise(PyXFormError, when=True)
+
+
+@contract("RepeatingSection.xml_control")
+def _(self: RepeatK, survey: SurveyS) -> XNode:
+    properties("C04", "C02")
+    no_native("needs survey-element objects: exercised through the e2e oracles and the runtime monitor")
+    locals(control_dict=Dict[str, str])
+    may_raise(PyXFormError, when=True)
+    Cd = some(self.control)
+    ch = self.children
+    nk = len(ControlKids(ch, len(ch)))
+    # type invariant of the sheet stage: no `body::nodeset` column on a repeat row (it would collide with the generated one)
+    requires(implies(bool(self.control), "nodeset" not in Cd))
+    # C04: a repeat is presented as a group holding its label and one repeat element, nothing else
+    ensures(result.nodeType == 1 and result.tagName == "group" and len(result.kids) == 2)
+    ensures(result.kids[0] == LabelNode(self, survey))
+    # C02: both are bound to the repeat's own node
+    ensures(len(keys(result.attrs)) == 1 and result.attrs["ref"] == XPathOf(self))
+    ensures(result.kids[1].nodeType == 1 and result.kids[1].tagName == "repeat"
+            and "nodeset" in result.kids[1].attrs and result.kids[1].attrs["nodeset"] == XPathOf(self))
+    # C04: the repeat element carries the row's body attributes after reference substitution, and nothing else ...
+    ensures(implies(bool(self.control), forall_str(lambda a: implies(a in Cd, a in result.kids[1].attrs
+            and result.kids[1].attrs[a] == Subst(ctx_of(survey), Cd[a], ctx_of(self))))))
+    ensures(forall_str(lambda a: implies(a in result.kids[1].attrs, a == "nodeset" or (bool(self.control) and a in Cd))))
+    # ... and holds the controls of the child rows in sheet order, followed by the per-instance dynamic defaults
+    ensures(result.kids[1].kids == ControlKids(ch, len(ch)) + RepeatDynDefaults(self))
+
+    @loop(0, index="i")
+    def _():
+        invariant(repeat_node.nodeType == 1 and repeat_node.tagName == "repeat"
+                  and "nodeset" in repeat_node.attrs and repeat_node.attrs["nodeset"] == XPathOf(self))
+        invariant(implies(bool(self.control), forall_str(lambda a: implies(a in Cd, a in repeat_node.attrs
+                  and repeat_node.attrs[a] == Subst(ctx_of(survey), Cd[a], ctx_of(self))))))
+        invariant(forall_str(lambda a: implies(a in repeat_node.attrs, a == "nodeset" or (bool(self.control) and a in Cd))))
+        invariant(repeat_node.kids == ControlKids(ch, len(ch))[:i])
+
+    @loop(1, index="j")
+    def _():
+        invariant(repeat_node.nodeType == 1 and repeat_node.tagName == "repeat"
+                  and "nodeset" in repeat_node.attrs and repeat_node.attrs["nodeset"] == XPathOf(self))
+        invariant(implies(bool(self.control), forall_str(lambda a: implies(a in Cd, a in repeat_node.attrs
+                  and repeat_node.attrs[a] == Subst(ctx_of(survey), Cd[a], ctx_of(self))))))
+        invariant(forall_str(lambda a: implies(a in repeat_node.attrs, a == "nodeset" or (bool(self.control) and a in Cd))))
+        invariant(repeat_node.kids == ControlKids(ch, len(ch)) + RepeatDynDefaults(self)[:j])
